@@ -116,6 +116,9 @@ func (e *Engine) field(val term.ID, f string) term.ID {
 		}
 		break
 	}
+	if tm := e.T.Get(cur); tm.Op == "deref" {
+		cur = tm.Args[0] // field paths do not distinguish a pointer from its pointee
+	}
 	return e.T.Mk("field:"+f, cur)
 }
 
